@@ -25,6 +25,8 @@ const (
 	shPV    // T is *V: a pointer to a type whose marshalers have value receivers
 	shStr   // T is a string-kinded type
 	shBytes // T is a slice-kinded type
+	shMap   // T is a map-kinded type
+	shNum   // T is an integer-kinded type
 	numShapes
 )
 
@@ -39,7 +41,7 @@ type Both interface {
 	json.Unmarshaler
 }
 
-var shapeNames = [...]string{"V(value marshalers, pointer unmarshalers)", "*P(pointer type)", "OnlyM", "OnlyU", "None", "Both(interface-typed T holding *P or nil)", "*V(pointer to value-receiver type)", "Str(string kind)", "Bytes(slice kind)"}
+var shapeNames = [...]string{"V(value marshalers, pointer unmarshalers)", "*P(pointer type)", "OnlyM", "OnlyU", "None", "Both(interface-typed T holding *P or nil)", "*V(pointer to value-receiver type)", "Str(string kind)", "Bytes(slice kind)", "Map(map kind)", "Num(integer kind)"}
 var helperNames = [...]string{"MarshalText", "UnmarshalText", "MarshalBinary", "UnmarshalBinary", "MarshalJSON", "UnmarshalJSON"}
 
 // listSpec is one helper invocation.
@@ -57,7 +59,7 @@ func (ls listSpec) helper() string { return helperNames[ls.enc*2+ls.dir] }
 // hasInterface: does the shape implement the interface this helper needs?
 func (ls listSpec) hasInterface() bool {
 	switch ls.shape {
-	case shV, shP, shIface, shPV, shStr, shBytes:
+	case shV, shP, shIface, shPV, shStr, shBytes, shMap, shNum:
 		return true
 	case shOnlyM:
 		return ls.dir == dirMarshal
@@ -407,6 +409,10 @@ func execList(ls listSpec, keepMsgs bool) (l *listRun, escaped interface{}) {
 			runEnc(l, ls, func(i int, c caseSpec) Str { return Str(kindValue(i+1, c.payload)) })
 		case shBytes:
 			runEnc(l, ls, func(i int, c caseSpec) Bytes { return Bytes(kindValue(i+1, c.payload)) })
+		case shMap:
+			runEnc(l, ls, func(i int, c caseSpec) Map { return Map{"c": kindValue(i+1, c.payload)} })
+		case shNum:
+			runEnc(l, ls, func(i int, c caseSpec) Num { return Num(i + 1) })
 		case shPV:
 			runEnc(l, ls, func(i int, c caseSpec) *V {
 				if c.beh == bNilReceiver || (c.nilValue && ls.dir == dirUnmarshal) {
@@ -519,7 +525,10 @@ func normalise(ls *listSpec) {
 		if c.adjust {
 			c.before = hPass
 		}
-		if c.wildcard && (ls.shape == shStr || ls.shape == shBytes || ls.typeHelper != 2 || ls.dir != dirUnmarshal || c.pred != pNone || c.nilValue || c.nilIface || c.adjust) {
+		if c.adjust && ls.shape == shNum && ls.dir == dirUnmarshal {
+			c.adjust = false // an integer has no room for a "listed wrong" payload
+		}
+		if c.wildcard && (ls.shape == shStr || ls.shape == shBytes || ls.shape == shMap || ls.shape == shNum || ls.typeHelper != 2 || ls.dir != dirUnmarshal || c.pred != pNone || c.nilValue || c.nilIface || c.adjust) {
 			c.wildcard = false
 		}
 		if c.nilIface {
